@@ -1415,7 +1415,8 @@ int main(int argc, char **argv) {
 #endif
   std::string mode = A.get("mode", defmode);
   long seed = A.seed;
-  const int stage_timeout = (int)A.geti("stage-timeout", 120);
+  // a construction stage of the largest case (12^3 generators) takes a few seconds
+  const int stage_timeout = (int)A.geti("stage-timeout", A.thorough() ? 120 : 30);
 
   if (!A.replay.empty()) {
     const std::string txt = read_file(A.replay);
